@@ -49,6 +49,26 @@ type SleepPlan struct {
 	CancelAt int64  `json:"cancel_at,omitempty"`
 	// Detached: the context is of a hand-written type (sk.Detach)
 	Detached bool `json:"detached,omitempty"`
+	// Sloppy (with cancel-at): a hand-written context that reports a deadline far beyond d, ends earlier than that
+	// all the same, and then says DeadlineExceeded (a merge of two contexts that reports the wrong parent's
+	// deadline, say): Deadline() is advice, Done() and Err() are what counts
+	Sloppy bool `json:"sloppy,omitempty"`
+}
+
+// sloppyCtx: see SleepPlan.Sloppy.
+type sloppyCtx struct {
+	inner context.Context
+	dl    time.Time
+}
+
+func (c sloppyCtx) Deadline() (time.Time, bool) { return c.dl, true }
+func (c sloppyCtx) Done() <-chan struct{}       { return c.inner.Done() }
+func (c sloppyCtx) Value(k any) any             { return nil }
+func (c sloppyCtx) Err() error {
+	if c.inner.Err() != nil {
+		return context.DeadlineExceeded
+	}
+	return nil
 }
 
 func genSleep(t *rapid.T) SleepPlan {
@@ -77,6 +97,7 @@ func genSleep(t *rapid.T) SleepPlan {
 		p.Ctx = "deadline-only"
 	}
 	p.Detached = rapid.IntRange(0, 4).Draw(t, "detached") == 0
+	p.Sloppy = p.Ctx == "cancel-at" && p.D > 0 && p.D < 1<<50 && rapid.Bool().Draw(t, "sloppy")
 	return p
 }
 
@@ -149,6 +170,9 @@ func runSleep(p SleepPlan) (vk.Outcome, error) {
 		}
 		doneAtCall := ctx.Err() != nil
 		start := time.Now()
+		if p.Sloppy && p.Ctx == "cancel-at" {
+			ctx = sloppyCtx{inner: ctx, dl: start.Add(10*time.Duration(p.D) + time.Hour)}
+		}
 		if p.Detached && p.D%2 == 0 {
 			ctx = sk.Detach(ctx)
 		} else if p.Detached {
